@@ -28,7 +28,7 @@ COMPONENTS = {"real": ["ECAgent.Batching.batch_run", "_run_model_for_batch", "_b
                        "multiprocessing.Pool (real-pool arm only, schedule not controlled)"],
               "stub": ["multiprocessing.Pool -> simkit.simpool.SimPool (discrete-event pool, pickle boundary kept)",
                        "models/systems/collectors are harness workloads (props/workloads.py)"]}
-PROBES = ["single_value_declared_after_a_collection", "failure_right_after_complete", "executions_running_batches_of_their_own", "collectors_rebinding_their_records", "collectors_falsy_while_empty", "parameter_named_like_a_batching_argument", "error_surfaced_while_other_workers_busy", "completion_reordered", "all_results_from_one_worker", "tie_in_finish_times", "fail_first", "fail_last",
+PROBES = ["requested_collector_missing_in_some_executions", "single_value_declared_after_a_collection", "failure_right_after_complete", "executions_running_batches_of_their_own", "collectors_rebinding_their_records", "collectors_falsy_while_empty", "parameter_named_like_a_batching_argument", "error_surfaced_while_other_workers_busy", "completion_reordered", "all_results_from_one_worker", "tie_in_finish_times", "fail_first", "fail_last",
           "max_ts_at_completion", "max_ts_below_completion", "max_ts_zero", "reps_single_combination",
           "collectors_none", "collectors_empty_list", "collectors_invalid", "parameterlist_input", "serial_order_checked",
           "second_batch_same_process", "parameterlist_reused_edit_returned", "parameterlist_reused_grid_search_first", "sibling_parameterlist_edited",
@@ -170,7 +170,11 @@ def generate(rng, tier):
     return {"nested_batches": rng.random() < 0.1, "falsy_collectors": rng.random() < 0.15, "rebinding_collectors": rng.random() < 0.12, "sibling": rng.random() < 0.15, "shadow_timestep": rng.choice([None, None, None, None, 0.25, 2.0, 7]),
             "prebuild": prebuild, "second": second, "grid": grid, "via": rng.choice(["dict", "plist"]), "reps": reps, "max_ts": max_ts, "collectors": coll,
             "processes": procs, "base_stop": base_stop, "spread": spread, "pool": pool,
-            "fail": fail}
+            "fail": fail,
+            # some models of the grid do not have one of the collectors (a parameter decides what a model registers): asking a
+            # batch for records that an execution cannot supply is an error of that execution
+            "lacking": {"name": rng.choice(["col0", "col1", "col2"]), "mod": rng.choice([1, 2, 2, 3]), "rem": rng.randrange(3)}
+            if rng.random() < 0.08 else None}
 
 
 def _zero_score(model):
@@ -282,7 +286,8 @@ def one_batch(ctx, sc, fail, label):
     E = [W.sig_of(c) for c in combos] * reps
     W.reset({"base_stop": sc["base_stop"], "spread": sc["spread"], "fail": fail, "collectors_defined": COLLECTORS,
              "shadow_timestep": sc.get("shadow_timestep"), "falsy_collectors": sc.get("falsy_collectors"),
-             "rebinding_collectors": sc.get("rebinding_collectors"), "nested_batches": sc.get("nested_batches")})
+             "rebinding_collectors": sc.get("rebinding_collectors"), "nested_batches": sc.get("nested_batches"),
+             "lacking": sc.get("lacking") if fail is None else None})
     if sc.get("nested_batches"):
         ctx.probe("executions_running_batches_of_their_own")
     if sc.get("rebinding_collectors"):
@@ -353,6 +358,15 @@ def one_batch(ctx, sc, fail, label):
                       f"execution raised {fail.get('exc', 'BatchFailure')}, caller saw {type(val).__name__}: {val}")
             ctx.probe("fail_exc_" + fail.get("exc", "BatchFailure"))
             return {"comp": comp, "failed": True}
+    lack = sc.get("lacking") if fail is None else None
+    if lack and form not in ("none",) and lack["name"] in sc["collectors"]["names"] and any(W.lacks(s_, lack) for s_ in E) and \
+            (sc["max_ts"] is None or True):
+        ctx.probe("requested_collector_missing_in_some_executions")
+        ctx.fault("pool.fail")
+        ctx.check(st == "exc", "error-dropped",
+                  lambda: f"the executions {[s_ for s_ in E if W.lacks(s_, lack)][:3]} have no collector {lack['name']!r}, which was "
+                          f"requested ({sc['collectors']['names']}); batch_run returned normally: {repr(val)[:300]}")
+        return {"comp": comp, "failed": True}
     if st != "ok":
         ctx.fail("batch:unexpected-exception", f"{type(val).__name__}: {val}")
     check_ledger(ctx, sc, E)
